@@ -36,6 +36,7 @@ type Options struct {
 	InterceptTo string
 	EncodedPath bool
 	Order       []int // optional: order in which the option functions are applied (a permutation of 0..5)
+	Via         int   // how the options reach the router: 0 New(opts...), 1 New() + WithOptions(opts...), 2 New() + one WithOptions call per option
 }
 
 func (o Options) String() string {
@@ -60,6 +61,9 @@ func (o Options) String() string {
 	}
 	if len(o.Order) > 0 {
 		ss = append(ss, fmt.Sprintf("order=%v", o.Order))
+	}
+	if o.Via > 0 {
+		ss = append(ss, fmt.Sprintf("via=WithOptions#%d", o.Via))
 	}
 	return "{" + strings.Join(ss, ",") + "}"
 }
@@ -97,6 +101,27 @@ func (o Options) Rux() []func(*rux.Router) {
 	}
 	return opts
 }
+
+// NewRouter builds a router with these options, through New or WithOptions (legal until the first route is added).
+func (o Options) NewRouter() *rux.Router {
+	opts := o.Rux()
+	switch o.Via {
+	case 1:
+		r := rux.New()
+		r.WithOptions(opts...)
+		return r
+	case 2:
+		r := rux.New()
+		for _, f := range opts {
+			r.WithOptions(f)
+		}
+		return r
+	}
+	return rux.New(opts...)
+}
+
+// GenVia draws how the options are handed to the router.
+func GenVia(t *rapid.T) int { return rapid.SampledFrom([]int{0, 0, 1, 2}).Draw(t, "optionsVia") }
 
 // GenOrder draws an order for the option functions.
 func GenOrder(t *rapid.T) []int {
